@@ -14,7 +14,7 @@ CHECKS = {
     "C18": dict(
         level="model_checking", engine="M (MIR->SMT) + driver replay",
         technique="SMT over MIR-translated bodies: panic conditions of all numeric function kernels, size arithmetic of Map/Reduce/Join/Set as an inductive step with havocked inputs, Intervals<i64>::values_len; replay through the real API",
-        text="Kernel-level totality: for all 64-bit / double inputs the panic condition of every numeric kernel of function.rs is decided, NaN production at finite inputs is decided for the non-transcendental float kernels, +-inf production for all float kernels (libm calls uninterpreted, constrained by their IEEE boundary facts); the size arithmetic of each relation constructor is checked for every input size >= 0 and every LIMIT/OFFSET (one inductive step covers relation trees of any depth); values_len is checked against the hull width for every interval. Pipeline-level totality (sqlparser, builders, todo!()) is outside.",
+        text="Kernel-level totality: for all 64-bit / double inputs the panic condition of every numeric kernel of function.rs is decided, NaN production at finite inputs is decided for the non-transcendental float kernels, +-inf production for all float kernels (libm calls uninterpreted, constrained by their IEEE boundary facts); the size arithmetic of each relation constructor is checked for every input size >= 0 and every LIMIT/OFFSET (one inductive step covers relation trees of any depth); a concrete sweep of the real compiler and DP rewriter over the other checks' catalogues plus zero-bound / overflow shapes reports every panic (part d: enumeration, not a solver claim); values_len is checked against the hull width for every interval. Pipeline-level totality (sqlparser, builders, todo!()) is outside.",
         note="Trusted: MIR translation + callee table + stubs listed in evidence (from_interval panics iff min>max; input sizes arbitrary with 0<=max). Every counterexample is replayed through Function::value/super_image or SQL->Relation before being reported.",
         design="3 C18"),
     "C15": dict(
@@ -38,7 +38,7 @@ CHECKS = {
     "C11": dict(
         level="model_checking", engine="K (Kani) + M (MIR composition lemmas) + driver grid",
         technique="Kani/CBMC proof harnesses over the compiled Intervals<i64> (inductive step from arbitrary valid states); SMT composition lemmas over the MIR of union/intersection/is_subset_of/contains with the leaf contracts Kani proves; SMT search for a value outside the result of the real lattice operations on a grid of type pairs",
-        text="Interval algebra: each leaf operation is proved by Kani for every valid pre-state of <= 2 intervals and every argument (sorted/disjoint/capacity invariant re-established, no point lost, exact below capacity, capacity crossing included); the composite operations are decided from their MIR for operands of up to 2 (thorough: 3) intervals. DataType level: for ~500 type pairs on a boundary grid the solver searches every value of the operands for one outside the real is_subset_of / super_union / super_intersection result (cross-variant membership through the MIR-translated injection kernels).",
+        text="Interval algebra: each leaf operation is proved by Kani for every valid pre-state of <= 2 intervals and every argument (sorted/disjoint/capacity invariant re-established, no point lost, exact below capacity, capacity crossing included); the composite operations are decided from their MIR for operands of up to 2 (thorough: 3) intervals. DataType level: for ~700 type pairs on a boundary grid (scalars, optionals, structs, lists and sets with symbolic values of length <= 2) the solver searches every value of the operands for one outside the real is_subset_of / super_union / super_intersection result (cross-variant membership through the MIR-translated injection kernels).",
         note="Trusted: Kani/CBMC; MIR translation, combinator and contract stubs; grid of type pairs is enumeration (stated). Known findings: Struct::super_union with different field sets; literal `contains` for cross-variant pairs.",
         design="3 C11, 2.2"),
     "C10": dict(
